@@ -228,21 +228,21 @@ func NewWorld(scheme *runtime.Scheme, seed uint64) *World {
 }
 
 var builtinKinds = map[schema.GroupKind]KindInfo{
-	{Group: "", Kind: "Secret"}:                                                      {Namespaced: true, NoStatus: true},
-	{Group: "", Kind: "ConfigMap"}:                                                   {Namespaced: true, NoStatus: true},
-	{Group: "", Kind: "ServiceAccount"}:                                              {Namespaced: true, NoStatus: true},
-	{Group: "", Kind: "Service"}:                                                     {Namespaced: true},
-	{Group: "", Kind: "Namespace"}:                                                   {},
-	{Group: "", Kind: "Event"}:                                                       {Namespaced: true, NoStatus: true},
-	{Group: "apps", Kind: "Deployment"}:                                              {Namespaced: true},
-	{Group: "coordination.k8s.io", Kind: "Lease"}:                                    {Namespaced: true, NoStatus: true},
-	{Group: "rbac.authorization.k8s.io", Kind: "ClusterRole"}:                        {NoStatus: true},
-	{Group: "rbac.authorization.k8s.io", Kind: "ClusterRoleBinding"}:                 {NoStatus: true},
-	{Group: "rbac.authorization.k8s.io", Kind: "Role"}:                               {Namespaced: true, NoStatus: true},
-	{Group: "rbac.authorization.k8s.io", Kind: "RoleBinding"}:                        {Namespaced: true, NoStatus: true},
-	{Group: "apiextensions.k8s.io", Kind: "CustomResourceDefinition"}:                {},
-	{Group: "admissionregistration.k8s.io", Kind: "ValidatingWebhookConfiguration"}:  {NoStatus: true},
-	{Group: "admissionregistration.k8s.io", Kind: "MutatingWebhookConfiguration"}:    {NoStatus: true},
+	{Group: "", Kind: "Secret"}:                                                     {Namespaced: true, NoStatus: true},
+	{Group: "", Kind: "ConfigMap"}:                                                  {Namespaced: true, NoStatus: true},
+	{Group: "", Kind: "ServiceAccount"}:                                             {Namespaced: true, NoStatus: true},
+	{Group: "", Kind: "Service"}:                                                    {Namespaced: true},
+	{Group: "", Kind: "Namespace"}:                                                  {},
+	{Group: "", Kind: "Event"}:                                                      {Namespaced: true, NoStatus: true},
+	{Group: "apps", Kind: "Deployment"}:                                             {Namespaced: true},
+	{Group: "coordination.k8s.io", Kind: "Lease"}:                                   {Namespaced: true, NoStatus: true},
+	{Group: "rbac.authorization.k8s.io", Kind: "ClusterRole"}:                       {NoStatus: true},
+	{Group: "rbac.authorization.k8s.io", Kind: "ClusterRoleBinding"}:                {NoStatus: true},
+	{Group: "rbac.authorization.k8s.io", Kind: "Role"}:                              {Namespaced: true, NoStatus: true},
+	{Group: "rbac.authorization.k8s.io", Kind: "RoleBinding"}:                       {Namespaced: true, NoStatus: true},
+	{Group: "apiextensions.k8s.io", Kind: "CustomResourceDefinition"}:               {},
+	{Group: "admissionregistration.k8s.io", Kind: "ValidatingWebhookConfiguration"}: {NoStatus: true},
+	{Group: "admissionregistration.k8s.io", Kind: "MutatingWebhookConfiguration"}:   {NoStatus: true},
 }
 
 // SetKind configures a kind (scope, status subresource).
